@@ -19,7 +19,10 @@ void verif_observe(uint64_t) noexcept;
 // because CBMC needs concrete sizes for strings/buffers to stay tractable;
 // everything else (contents, choices) stays symbolic.
 uint32_t verif_param(uint32_t i) noexcept;
+// end of harness: stop without running the destructors of the harness' locals
+void verif_end() noexcept;
 }
+#define VERIF_END() verif_end()
 #define VERIF_STR2(x) #x
 #define VERIF_STR(x) VERIF_STR2(x)
 // nomerge: keep every assertion call site distinct in the IR (the message must
